@@ -254,11 +254,13 @@ def conforming_stream(R, nlinks=None, max_hbf=4, layers=None, df=None, ver=None,
 def switch_format(R, pk):
     """one link changes its data format at an HBF boundary (header and payload layout together, so the
     layout still agrees with each packet's own header); returns the indices of the switched packets"""
-    links = sorted({p.rdh['link'] for p in pk})
-    l = R.choice(links)
-    idx = [i for i, p in enumerate(pk) if p.rdh['link'] == l]
-    starts = [i for i in idx[1:] if pk[i].rdh['page'] == 0]
-    if not starts: return []
+    cand = []
+    for l in sorted({p.rdh['link'] for p in pk}):
+        idx = [i for i, p in enumerate(pk) if p.rdh['link'] == l]
+        starts = [i for i in idx[1:] if pk[i].rdh['page'] == 0]
+        if starts: cand.append((idx, starts))
+    if not cand: return []
+    idx, starts = R.choice(cand)
     s0 = R.choice(starts)
     sw = [i for i in idx if i >= s0 and pk[i].raw_payload is None]
     for i in sw:
